@@ -22,7 +22,7 @@ from pySDC.implementations.problem_classes.TestEquation_0D import testequation0d
 from pySDC.implementations.sweeper_classes.generic_implicit import generic_implicit
 from pySDC.implementations.transfer_classes.TransferMesh_NoCoarse import mesh_to_mesh
 
-STATE = {'occ': {}, 'resvars': [], 'log': [], 'comm': [], 'sent': {}, 'calls': 0, 'snap': {}, 'fine_sweeps': {}}
+STATE = {'occ': {}, 'resvars': [], 'log': [], 'comm': [], 'sent': {}, 'calls': 0, 'snap': {}, 'fine_sweeps': {}, 'kmax': 0}
 
 
 class ProbeSweeper(generic_implicit):
@@ -41,6 +41,10 @@ class ProbeSweeper(generic_implicit):
         if L.level_index == 0 and stage == 'IT_CHECK':
             S_ = L.__dict__['_probe_step']
             key = (S_.status.slot, S_.status.iter)
+            if STATE['kmax'] and S_.status.iter > STATE['kmax']:
+                # the iteration counter ran away (budget and the bounded forced continuations are long exceeded): stop before more symbolic
+                # residuals are created, every one of which would double the number of paths
+                raise RuntimeError(f'step {key[0]} is in iteration {key[1]}, far beyond the iteration budget: the block does not terminate')
             n = STATE['occ'].get(key, 0)
             STATE['occ'][key] = n + 1
             v = z3.Real(f'r_{key[0]}_{key[1]}_{n}')
@@ -101,8 +105,8 @@ class Ctl(controller_nonMPI):
 
     def pfasst(self, local_MS_active):
         STATE['calls'] += 1
-        if STATE['calls'] > 5000:
-            raise RuntimeError('block does not terminate (more than 5000 controller stages)')
+        if STATE['calls'] > 400:  # (a legitimate block of these sizes needs fewer than 100 stages)
+            raise RuntimeError('block does not terminate (more than 400 controller stages)')
         running = [S.status.stage for S in local_MS_active if S.status.stage != 'DONE']
         STATE['comm'].append(('stage', tuple(running)))
         return super().pfasst(local_MS_active)
@@ -173,6 +177,7 @@ def run_block(c, NP, NL, KMAX, predict_type, mssdc_jac, all_to_done, nsweeps, in
     """one execution path of one block; returns plain data: list of violated clauses + observations"""
     for k in STATE:
         STATE[k] = type(STATE[k])()
+    STATE['kmax'] = KMAX + 3
     mx = z3.Int('maxiter')
     if maxiter_sym:
         c.add(z3.And(mx >= 0, mx <= KMAX))
